@@ -382,7 +382,7 @@ def oracle_statements(o, ref, prefix_known):
             if g != w:
                 j = next((i for i in range(min(len(g), len(w))) if g[i] != w[i]), min(len(g), len(w)))
                 detail = " first difference at action %d: sql prints %r, expected %r" % (j + 1, g[j] if j < len(g) else None, w[j] if j < len(w) else None)
-                fails.append(("sql_renders_diff", 0, "sql --backend %s does not print the statements of the plan diff lists.%s" % (b, detail[:700])))
+                fails.append(("sql_renders_diff", None, "sql --backend %s does not print the statements of the plan diff lists.%s" % (b, detail[:700])))
     return fails
 
 
@@ -522,9 +522,10 @@ def observe(hcli, pdir, cfg, message, fill_mode, backend, tag):
     removed = sorted(n for n in before if n not in after)
     o["rev_rc"] = rc
     o["rev_added"], o["rev_changed"], o["rev_removed"] = added, changed, removed
-    # the three explicit refusals of `revision` (each told by one stable substring of its message)
+    # the four explicit refusals of `revision` (each told by one stable substring of its message)
     o["rev_refused"] = rc != 0 and any(x in err for x in ("Cannot add non-nullable foreign key column",
-                                                          "refusing to overwrite it", "cannot create migration version"))
+                                                          "refusing to overwrite it", "cannot create migration version",
+                                                          "invalid migration plan"))
     o["rev_noterm"] = rc != 0 and "not a terminal" in err
     grev = "OR_err"
     wrote = None
@@ -573,7 +574,7 @@ def prefixed(o, prefix):
 
 def oracle_c13(row, post):
     """returns list of (clause, classifier_index or None, text). classifier indices: classify_cli order
-    (0 sql prefix, 1 invalid enum fill)."""
+    (none is left: every failure is a violation)."""
     o, cfg = row["obs"], row["config"]
     fails = []
     d = o["diff"]
@@ -591,11 +592,11 @@ def oracle_c13(row, post):
             want = [] if not reports else [prefixed(a, cfg.get("prefix", "")) for a in d[1]]
             got = [] if s[0] == "none" else s[2]
             if [list(map(str, (a[0], a[1]))) for a in want] != [list(map(str, (a[0], a[1]))) for a in got]:
-                fails.append(("sql_renders_diff", 0, "sql renders %d action(s) %s, diff lists %d %s" % (
+                fails.append(("sql_renders_diff", None, "sql renders %d action(s) %s, diff lists %d %s" % (
                     len(got), [a[0] + ":" + ".".join(a[1][:1]) for a in got][:4], len(want), [a[0] + ":" + ".".join(a[1][:1]) for a in want][:4])))
         elif s[0] == "err":
             # (with a prefix, `sql` sees every model table as new: creating them all at once can fail on an FK cycle)
-            fails.append(("sql_renders_diff", 0, "diff succeeds, sql fails before SQL generation"))
+            fails.append(("sql_renders_diff", None, "diff succeeds, sql fails before SQL generation"))
         # status: synchronized iff diff finds nothing (no known exception since fix b3fae31)
         if o["status"] == "sync" and reports:
             fails.append(("status_sync_iff_no_diff", None, "status says synchronized, diff lists %d change(s): %s" % (len(d[1]), d[1][0][0])))
@@ -621,7 +622,7 @@ def oracle_c13(row, post):
         po = post["obs"]
         if po["diff"][0] == "err" and d[0] != "err":
             # an overwritten migration (finding 3) breaks the history as well
-            fails.append(("revision_output_loadable", over if o["rev_changed"] else 1, "after `revision` wrote %s, `diff` exits 1" % o["wrote"]["file"]))
+            fails.append(("revision_output_loadable", None, "after `revision` wrote %s, `diff` exits 1" % o["wrote"]["file"]))
     fails += o.get("stmt_fails", [])
     # log shows every stored migration
     lg = o["log"]
@@ -735,6 +736,14 @@ def fill_streams():
                 out.append(("notnull-%s-%s-%s" % (tn, k, mode), [tbl(col(ty, True, a)), tbl(col(ty, False, b))], mode))
             for k, d in (("nodefault", None), ("default", d1)):
                 out.append(("addcol-%s-%s-%s" % (tn, k, mode), [tbl(), tbl(col(ty, False, d))], mode))
+    # a --fill-with value that is not a label of the enum (must be refused since fix 06565a6: exit 1, nothing written),
+    # next to values the validation has no opinion about
+    en = FILL_TYPES["enum"][0]
+    for bad in ("zzz", "'zzz'", "A", "''"):
+        out.append(("addcol-enum-badfill-%s" % bad.strip("'") or "empty", [tbl(), tbl(col(en, False, None))], ["acct.c=%s" % bad]))
+        out.append(("notnull-enum-badfill-%s" % bad.strip("'") or "empty", [tbl(col(en, True, None)), tbl(col(en, False, None))], ["acct.c=%s" % bad]))
+    out.append(("addcol-enum-goodfill", [tbl(), tbl(col(en, False, None))], ["acct.c='b'"]))
+    out.append(("addcol-text-anyfill", [tbl(), tbl(col("text", False, None))], ["acct.c=zzz"]))
     return out
 
 
@@ -1054,7 +1063,8 @@ def tree_layout(rng, tables, step):
     """model files of one step: moved between sub-directories / renamed / json<->yaml as the steps go on"""
     files = {}
     for t in tables:
-        sub = rng.choice(["", "", "sub/", "sub/deep/", "other/", "my dir/", "v1.2/x y/"])
+        sub = rng.choice(["", "", "sub/", "sub/deep/", "other/", "my dir/", "v1.2/x y/",
+                          "_shared/", "_shared/", ".drafts/", "__pycache__/", "_/", ".a/_b/", "sub/_inner/"])
         ext = rng.choice(["json", "json", "yaml", "yml"])
         stem = t["name"] + rng.choice(["", "", "", ".v2", " copy"]) + (".vespertide" if rng.random() < 0.25 else "")
         files["%s%s.%s" % (sub, stem, ext)] = json.dumps(t["json"], indent=1) if ext == "json" else t["yaml"]
@@ -1084,6 +1094,11 @@ def run_tree_evolution(hcli, base, idx, evo, seed):
             plant["stale/deeper/x.%s" % ("py" if ORM_EXT[orm] == "rs" else "rs")] = "other language %d" % si
         if rng.random() < 0.2:
             plant["emptydir"] = None
+        # stale generated files inside directories with a leading '_' / '.' (the names sanitised model directories get)
+        if rng.random() < 0.35:
+            plant["%s/stale_%d.%s" % (rng.choice(["_shared", "_drafts", "__pycache__", "_", "_a/_b", ".hidden", "sub/_inner"]), si, ORM_EXT[orm])] = "stale %d" % si
+        if rng.random() < 0.15:
+            plant["%s/mod.rs" % rng.choice(["_shared", "_drafts", "_a"])] = "pub mod gone;\n"
         if rng.random() < 0.25:
             orm2 = rng.choice(["seaorm", "sqlalchemy", "sqlmodel"])
         else:
@@ -1142,13 +1157,15 @@ def run_tree(tier, seed):
 
 # =================================================================================== verdicts shared by c13.py / c20.py
 def load_findings(prop):
-    """committed known findings of this property + the proposals waiting to be committed (props/known_<prop>.proposed.json)"""
-    out = [k for k in vflib.load_known() if k.get("property") == prop]
+    """committed known findings of this property, overridden / extended by the proposals waiting to be committed
+    (props/known_<prop>.proposed.json: a proposal with the id of a committed entry replaces it, e.g. open -> fixed)"""
+    out = {k["id"]: k for k in vflib.load_known() if k.get("property") == prop}
     p = os.path.join(ROOT, "props", "known_%s.proposed.json" % prop)
     if os.path.exists(p):
-        have = {k["id"] for k in out}
-        out += [k for k in json.load(open(p)).get("findings", []) if k["id"] not in have and k.get("property") == prop]
-    return out
+        for k in json.load(open(p)).get("findings", []):
+            if k.get("property") == prop:
+                out[k["id"]] = k
+    return list(out.values())
 
 
 def verdict(chk, prop, res, cls_names, input_of, corr_id, exempt=None):
